@@ -13,6 +13,7 @@ package main
 //           GetErrors, and per entry Namespace, InstantiatingModule, ReadOnly, DefaultValues,
 //           SingleDefaultValue, Path, GetWhenXPath, Modules, [Find], [Print])
 //           G<i> ms.GetModule(name i without ".yang")   (Read + Process + ToEntry in one call)
+//           D<i> write text i as file "name i" into a fresh directory that is on ms's search path (opts r: "dir/...")
 //     after every P a read is done when Process returned no error (or opts has e).
 //   output: "ok <per-op summary>"  or  "PANIC:op=<k>:<op> api=<api> msg=<value> at=<goyang frames>"
 //
@@ -25,6 +26,7 @@ import (
 	"fmt"
 	"io"
 	"os"
+	"path/filepath"
 	"runtime/debug"
 	"sort"
 	"strconv"
@@ -308,6 +310,14 @@ func c01Hist(toks []string) (out string) {
 	ms.ParseOptions.DeviateOptions.IgnoreDeviateNotSupported = strings.Contains(opts, "n")
 	ms.ParseOptions.StoreUses = strings.Contains(opts, "u")
 	var sum []string
+	// D<i> puts text i as a file into a directory of its own (below the working directory, which the caller
+	// removes) that is on the search path of ms; with option r the path entry is recursive ("dir/...")
+	fsdir := ""
+	defer func() {
+		if fsdir != "" {
+			os.RemoveAll(fsdir)
+		}
+	}()
 	for k, op := range strings.Split(ops, ",") {
 		cur = fmt.Sprintf("%d:%s", k, op)
 		r.op = cur
@@ -343,6 +353,34 @@ func c01Hist(toks []string) (out string) {
 				sum = append(sum, "Le")
 			} else {
 				sum = append(sum, "Lo")
+			}
+		case strings.HasPrefix(op, "D"):
+			i, _ := strconv.Atoi(op[1:])
+			if i < 0 || i >= n {
+				continue
+			}
+			if fsdir == "" {
+				d, err := os.MkdirTemp(".", "fs")
+				if err != nil {
+					return "BROKEN cannot create a directory: " + err.Error()
+				}
+				fsdir = d
+				if strings.Contains(opts, "r") {
+					ms.AddPath(filepath.Join(fsdir, "..."))
+				} else {
+					ms.AddPath(fsdir)
+				}
+			}
+			name := filepath.Clean("/" + names[i])[1:] // stays below fsdir
+			if name == "" {
+				name = "x.yang"
+			}
+			full := filepath.Join(fsdir, name)
+			_ = os.MkdirAll(filepath.Dir(full), 0o755)
+			if err := os.WriteFile(full, []byte(texts[i]), 0o644); err != nil {
+				sum = append(sum, "De")
+			} else {
+				sum = append(sum, "Do")
 			}
 		case strings.HasPrefix(op, "G"):
 			i, _ := strconv.Atoi(op[1:])
